@@ -74,10 +74,17 @@ def check_case(c):
             return (('writer', 'reported-length', 'total', feat), 'total length reported %r, written %d' % (m.length.value, c['total']))
     if c['outcome'] != 'Done':
         return None
-    # ---------------- reader
+    return reader_check(c, Decoder(), feat, want)
+
+
+def reader_check(c, decoder, feat, want, **options):
+    """The reader side of one case through the given Decoder object (a fresh one, or one that has read other
+    messages - other editions, with or without section 2 - before, possibly with per-call options)."""
+    from pybufrkit.errors import PyBufrKitError
+    ed, l2, nb = c['ed'], c['l2'], c['nb']
     data = bytes(c['input'])
     try:
-        d = Decoder().process(data)
+        d = decoder.process(data, **options)
         err = None
     except PyBufrKitError as e:
         d, err = None, e
@@ -118,7 +125,18 @@ def check_case(c):
 
 
 def _work(cs):
-    return [check_case(c) for c in cs]
+    from pybufrkit.decoder import Decoder
+    out = [check_case(c) for c in cs]
+    # the same inputs once more through ONE Decoder object, every other one with expected values not enforced: what a
+    # call leaves in the decoder (or an option of an earlier call) must not change how the next message is framed
+    shared = Decoder()
+    for k, c in enumerate(cs):
+        if out[k] is None and c['outcome'] == 'Done' and (c['shrink'] == 0 or k % 2):
+            feat = 'ed=%d,sec2=%s,nb%%8=%d,policy=%s' % (c['ed'], 'y' if c['l2'] >= 0 else 'n', c['nb'] % 8, c['policy'])
+            bad = reader_check(c, shared, feat, bytes(c['octs']), **({'ignore_value_expectation': True} if k % 2 == 0 else {}))
+            if bad:
+                out[k] = (('shared-decoder',) + tuple(bad[0]), 'after %d other messages through the same Decoder object: %s' % (k, bad[1]))
+    return out
 
 
 def run(run):
@@ -143,6 +161,8 @@ def run(run):
             raise MachineryError('FramingSM actions never taken: %r' % zero)
         run.add_tlc(res, 'FramingSM: editions x section 2 x %d data lengths x surpluses x policies' % len(nbs))
         cases = list(res.iter_emitted())
+        # neighbours differ in edition, then in section 2: one Decoder object per chunk reads them one after the other
+        cases.sort(key=lambda c: (c['nb'], c['xo'], str(c['sur']), c['totmode'], c['policy'], len(c['trailing']), len(c['leading']), c['ovr'], c['shrink'], c['l2'], c['ed']))
         chunks = [cases[i:i + 100] for i in range(0, len(cases), 100)]
         with mp.get_context('fork').Pool(14, initializer=fm94._init_worker) as pool:
             out = [x for c in pool.map(_work, chunks) for x in c]
